@@ -447,6 +447,10 @@ def rules(ctx):
     for fn, names in holders:
         ctx.ok("C11.R12", fn, fn.node, f"locals aliasing model values {names}: never written in place", construct=f"def {fn.name}")
     # "the same seeded call repeated": an algorithm object run twice builds its samplers anew (same rule as C07.R13)
+    # "independent of logging": printing the algorithm (`__str__` of the samplers) changes nothing - the proposal scales have `_update_std` as
+    # their only writer, in-place writes through a view included (same rule as C19.R3)
+    from .c19 import r3_std
+    r3_std(ctx, rid="C11.R17", title="the proposal scales are written by _update_std only (printing a sampler, logging, ... never rescales them)")
     from .c07 import r13_fresh_samplers_every_run
     r13_fresh_samplers_every_run(ctx, rid="C11.R15", why="the same seeded run repeated on the same algorithm object starts from the proposal scales adapted by the first run and gives another result")
     st = cg.stats()
